@@ -22,6 +22,7 @@ type printCase struct {
 	Lines []absLine  `json:"lines"`
 	Calls []specCall `json:"calls"`
 	NDump int        `json:"ndump"`
+	PP    ppSpec     `json:"pp"`
 }
 
 // rich projection of what the API exposes for one goroutine
